@@ -98,7 +98,7 @@ def load_known(pid: str) -> list[dict]:
 def match_known(v: Violation, known: list[dict]) -> dict | None:
     for e in known:
         sig = e.get("signature", {})
-        if sig.get("sub") != v.sub:
+        if sig.get("sub") != v.sub and v.sub not in sig.get("subs", []):
             continue
         ok = True
         for k, want in sig.get("facts", {}).items():
